@@ -103,7 +103,11 @@ proof fn lemma_be_val_lower(s: Seq<u8>)
 {
     if s.len() == 1 {
         assert(s.drop_last().len() == 0);
+        assert(be_val(s.drop_last()) == 0);
+        assert(s.last() == s[0]);
+        assert(be_val(s) == be_val(s.drop_last()) * 256 + s.last() as nat);
         assert(be_val(s) == s[0] as nat);
+        assert(pow256(0) == 1);
     } else {
         lemma_be_val_lower(s.drop_last());
         assert(pow256((s.len() - 1) as nat) == 256 * pow256((s.len() - 2) as nat));
